@@ -23,7 +23,7 @@ theorem sbuf_same {f : St → St} (h : ∀ s, (f s).sbuf = s.sbuf) : Rel NoNewPa
 
 theorem noNewParked_stepRel (m : Msg) : StepRel NoNewParked m where
   pre := noNewParked_preO
-  write := fun line => Rel.transportWrite (fun _ _ h => h) line
+  write := fun _ _ => Rel.transportWrite (fun _ _ h => h) _
   setNode := fun _ => sbuf_same fun _ => rfl
   alloc := sbuf_same fun _ => rfl
   erase := fun k bm _ => Rel.modifySt _ fun s e he => by
@@ -58,7 +58,7 @@ theorem ibuf_same (n : Int) {f : St → St} (h : ∀ s, (f s).ibuf = s.ibuf) : R
 
 theorem onlyMarkers_stepRel (m : Msg) : StepRel (OnlyMarkers m.node) m where
   pre := onlyMarkers_preO m.node
-  write := fun line => Rel.transportWrite (fun _ _ h => Or.inl h) line
+  write := fun _ _ => Rel.transportWrite (fun _ _ h => Or.inl h) _
   setNode := fun _ => ibuf_same _ fun _ => rfl
   alloc := ibuf_same _ fun _ => rfl
   erase := fun _ _ _ => ibuf_same _ fun s => by split <;> rfl
@@ -75,6 +75,69 @@ theorem onlyMarkers_stepRel (m : Msg) : StepRel (OnlyMarkers m.node) m where
 theorem only_presentation_markers_added (env : Env) (v : Ver) (m : Msg) (w : W) :
     ∀ e ∈ (dispatch env v m w).2.st.ibuf, e ∈ w.st.ibuf ∨ e = ((presentationRequest m.node).key, presentationRequest m.node) :=
   (rel_dispatch (onlyMarkers_stepRel m) (ParkOK.of_all fun _ => ibuf_same _ fun _ => rfl) env v).step w
+
+/-! ### Every write is a specified reaction -/
+
+/-- What a step adds to the write log: attempts to write reactions to `m`, nothing else. -/
+def OnlyReactions (m : Msg) : W → W → Prop :=
+  fun w w' => ∃ l, w'.writes = w.writes ++ l ∧ ∀ e ∈ l, ∃ r, Reaction m r ∧ e.line = encode r
+
+theorem onlyReactions_preO (m : Msg) : PreO (OnlyReactions m) where
+  refl := fun w => ⟨[], by simp, by simp⟩
+  trans := by
+    rintro a b c ⟨l1, h1, p1⟩ ⟨l2, h2, p2⟩
+    refine ⟨l1 ++ l2, by rw [h2, h1, List.append_assoc], ?_⟩
+    intro e he
+    rcases List.mem_append.mp he with h | h
+    · exact p1 e h
+    · exact p2 e h
+
+theorem onlyReactions_modifySt (m : Msg) (f : St → St) : Rel (OnlyReactions m) (modifySt f) :=
+  ⟨fun w => ⟨[], by simp [M.modifySt], by simp⟩⟩
+
+theorem onlyReactions_stepRel (m : Msg) : StepRel (OnlyReactions m) m where
+  pre := onlyReactions_preO m
+  write := fun sm hr => ⟨fun w => by
+    simp only [transportWrite]
+    split
+    · exact ⟨[⟨encode sm, false⟩], rfl, by simpa using ⟨sm, hr, rfl⟩⟩
+    · exact ⟨[⟨encode sm, true⟩], rfl, by simpa using ⟨sm, hr, rfl⟩⟩
+    · exact ⟨[⟨encode sm, true⟩], rfl, by simpa using ⟨sm, hr, rfl⟩⟩⟩
+  setNode := fun _ => onlyReactions_modifySt m _
+  alloc := onlyReactions_modifySt m _
+  erase := fun _ _ _ => onlyReactions_modifySt m _
+  mark := onlyReactions_modifySt m _
+  unmark := onlyReactions_modifySt m _
+  version := fun _ _ => onlyReactions_modifySt m _
+
+/-- **The controller writes only as a specified reaction to the received message.** For every
+version, state, configuration and fault schedule, everything handed to the transport while the
+message `m` is handled is one of: the version query, the presentation request to `m`'s node, the
+reboot command to it, a stored value as a set message to the asker, the id response / config /
+time reply addressed like the request, the discover broadcast, or a parked command of the node
+that just woke.  (When each of them is written is the subject of the theorems below.) -/
+theorem writes_are_reactions (env : Env) (v : Ver) (m : Msg) (w : W) :
+    ∃ l, (dispatch env v m w).2.writes = w.writes ++ l ∧ ∀ e ∈ l, ∃ r, Reaction m r ∧ e.line = encode r :=
+  (rel_dispatch (onlyReactions_stepRel m) (ParkOK.of_all fun _ => onlyReactions_modifySt m _) env v).step w
+
+/-- **Addressed to the node that asked**: every reaction carries the sender's node id, except the
+version query (to the gateway, node 0) and the discover broadcast (node 255). -/
+theorem reaction_address (m r : Msg) (h : Reaction m r) :
+    r.node = m.node ∨ r = versionQuery ∨ (r.node = Gen.broadcastId ∧ r.type = Gen.iDiscover) := by
+  cases h with
+  | versionQuery => exact Or.inr (Or.inl rfl)
+  | presentationRequest => exact Or.inl rfl
+  | reboot => exact Or.inl rfl
+  | reqReply _ => exact Or.inl rfl
+  | idResponse _ => exact Or.inl rfl
+  | echoReply _ => exact Or.inl rfl
+  | discover => exact Or.inr (Or.inr ⟨rfl, rfl⟩)
+  | released bm hb => exact Or.inl hb
+
+/-- A rejected line writes nothing at all. -/
+theorem rejected_line_writes_nothing (env : Env) (line : Str) (w : W) (h : decode w.st.proto line = none) :
+    (recv env line w).2.writes = w.writes := by
+  simp [recv, M.bind, M.getSt, h, M.raise]
 
 /-! ### The version query -/
 
